@@ -72,16 +72,21 @@ impl BarState {
     }
 
     pub(crate) fn reset(&mut self, now: Instant, mode: Reset) {
+        if let Reset::All = mode {
+            self.state.pos.reset(now);
+        }
+
         // Always reset the estimator; this is the only reset that will occur if mode is
-        // `Reset::Eta`.
+        // `Reset::Eta`. The estimator restarts from the current position, so that progress made
+        // before `now` (recorded or not) does not leak into later estimates.
         self.state.est.reset(now);
+        self.state.est.prev_steps = self.state.pos.pos.load(Ordering::Relaxed);
 
         if let Reset::Elapsed | Reset::All = mode {
             self.state.started = now;
         }
 
         if let Reset::All = mode {
-            self.state.pos.reset(now);
             self.state.status = Status::InProgress;
 
             for tracker in self.style.format_map.values_mut() {
